@@ -348,6 +348,13 @@ def run(tier, seed):
         phase_schedule(chk, tier, seed, rng, tally)
         phase_traces(chk, tier, seed, rng, tally)
     tally.flush(chk)
+    if not chk.violations:
+        # the same contract for USER-defined observables through System and ObservableEvaluator
+        # (spec/UserObs.tla composed from Stats.tla's actions and an ObsExpr.tla instance; see ext_userobs.py)
+        import ext_userobs
+        with warnings.catch_warnings():
+            warnings.simplefilter("ignore")
+            ext_userobs.run(chk, tier, seed)
     chk.assumptions += [
         "nn_state.sample is observed through a wrapper installed on the instance; its contract (initial_state=None -> "
         "fresh buffer, overwrite=True -> works in place and returns its argument) is the environment of the schedule model",
